@@ -29,7 +29,7 @@ inline const char* inkind_name(int k) {
                             "variant holding a string", "flash pointer", "flash pointer+size", "Arduino String", "Arduino Stream"};
   return n[k];
 }
-inline bool inkind_zero_terminated(int k) { return k == IN_CSTR || k == IN_CHAR_PTR || k == IN_VARIANT || k == IN_FLASH || k == IN_ARDUINO_STRING; }
+inline bool inkind_zero_terminated(int k) { return k == IN_CSTR || k == IN_CHAR_PTR || k == IN_VARIANT || k == IN_FLASH; }   // (an Arduino String is read through its length(): a bounded kind)
 inline bool inkind_needs_shim(int k) { return k >= IN_FLASH; }
 
 struct ReadStats {
@@ -199,7 +199,7 @@ inline AJ::DeserializationError deser_kind(int kind, AJ::JsonDocument& doc, cons
       err = deser_call(doc, o, reinterpret_cast<const __FlashStringHelper*>(vf_to_flash(p)), n);
       free(p); break;
     }
-    case IN_ARDUINO_STRING: { std::string e = effective_bytes(kind, bytes); ::String* s = new ::String(e.c_str()); err = deser_call(doc, o, *s); delete s; break; }
+    case IN_ARDUINO_STRING: { ::String* s = new ::String(bytes.data(), (unsigned int)bytes.size()); err = deser_call(doc, o, *s); delete s; break; }
     case IN_ARDUINO_STREAM: {
       char* p = (char*)malloc(n ? n : 1); memcpy(p, bytes.data(), n);
       { ShimStream ss; ss.p = p; ss.end = p + n; ss.st = st; err = deser_call(doc, o, ss); st->counted = true; }
